@@ -197,7 +197,9 @@ class Builder:
             return ift.DomainTuple.scalar_domain()
         return ift.DomainTuple.make(ift.UnstructuredDomain(n) if self.space == "U" else ift.RGSpace(n))
 
-    def field(self, vals):
+    def field(self, vals, im=None):
+        if im is not None:
+            return self.ift.makeField(self.sp(len(vals)), np.asarray(vals, dtype=np.float64) + 1j * np.asarray(im, dtype=np.float64))
         return self.ift.makeField(self.sp(len(vals)), np.asarray(vals, dtype=np.float64))
 
     def mdom(self, d):
@@ -236,6 +238,20 @@ class Builder:
             return self.build(t["a"]["b"]["a"]) ** self.build(t["a"]["a"])
         if k == "ptw" and t["f"] == "exponentiate" and self.flip(t, "rpow"):
             return t["p"][0] ** self.build(t["a"])
+        if "c_im" in t or "d_im" in t or "rows_im" in t:
+            # complex constants (complex mode of C03): plain constructors
+            a = self.build(t["a"])
+            if k == "scale":
+                return a.scale(complex(t["c"], t["c_im"]))
+            if k == "addc":
+                return ift.Adder(self.field(t["c"], t["c_im"]), neg=t["neg"]) @ a
+            if k == "mulc":
+                return ift.makeOp(self.field(t["d"], t["d_im"])) @ a
+            if k == "lin":
+                m = (np.array(t["rows"], dtype=np.float64) + 1j * np.array(t["rows_im"], dtype=np.float64)).reshape(t["m"], t["n"])
+                if t["m"] == t["n"]:
+                    return ift.MatrixProductOperator(self.sp(t["n"]), m) @ a
+                return dense_op(ift, self.sp(t["n"]), self.sp(t["m"]), m) @ a
         if k == "scale" and t["c"] == -1.0 and self.flip(t, "neg"):
             return -self.build(t["a"])
         if k == "scale" and self.flip(t, "nummul"):
@@ -1115,3 +1131,56 @@ def ship_q(t):
         else:
             r[k] = v
     return r
+
+
+# ---------------------------------------------------------------------------------------------- complex mode
+def complexify(t, rng):
+    """copy of a (holomorphic) tree whose constants get small dyadic imaginary parts (`*_im` fields)"""
+    t = expand(t)
+    d = lambda: rng.choice([0, 0, 1, -1, 2, -2]) / 32
+    r = {}
+    for k, v in t.items():
+        r[k] = complexify(v, rng) if (k in ("a", "b", "f", "g") and isinstance(v, dict)) else v
+    k = t["t"]
+    if k == "scale":
+        r["c_im"] = rng.choice([0.0, 0.5, -0.25, 1.0]) if rng.random() < 0.6 else 0.0
+    elif k == "addc":
+        r["c_im"] = [d() for _ in t["c"]]
+    elif k == "mulc":
+        r["d_im"] = [d() for _ in t["d"]]
+    elif k == "lin":
+        r["rows_im"] = [[d() for _ in row] for row in t["rows"]]
+    return r
+
+
+def ship_c(t):
+    """complex tree -> numbers as [re_bits, im_bits] (driver op linc)"""
+    c = lambda re, im=0.0: [f2b(re), f2b(im)]
+    t = expand(t)
+    if t["t"] == "bil":
+        m, na, nb, T, _ = bil_info(t)
+        return dict(t="bil", m=m, na=na, nb=nb, T=[[[c(x) for x in row] for row in mat] for mat in T],
+                    a=ship_c(t["a"]), b=ship_c(t["b"]))
+    r = {}
+    for k, v in t.items():
+        if k.endswith("_im"):
+            continue
+        if k in ("a", "b", "f", "g") and isinstance(v, dict):
+            r[k] = ship_c(v)
+        elif k == "c" and t["t"] == "scale":
+            r[k] = c(v, t.get("c_im", 0.0))
+        elif k in ("c", "d"):
+            im = t.get(k + "_im", [0.0] * len(v))
+            r[k] = [c(x, y) for x, y in zip(v, im)]
+        elif k == "p":
+            r[k] = [c(x) for x in v]
+        elif k == "rows":
+            im = t.get("rows_im", [[0.0] * len(row) for row in v])
+            r[k] = [[c(x, y) for x, y in zip(row, irow)] for row, irow in zip(v, im)]
+        else:
+            r[k] = v
+    return r
+
+
+def decc(l):
+    return np.array([complex(b2f(a), b2f(b)) for a, b in l])
